@@ -190,10 +190,35 @@ pub fn check_fine(v: V3, r: i32) -> (u64, Vec<Viol>) {
     if s0.len() > 1 {
         out.push(viol("C03/overlap", format!("point lies strictly inside {} cells of resolution {}: {:?}", s0.len(), r, s0.iter().map(|&c| subj::hex(c)).collect::<Vec<_>>()), case.clone()));
     }
+    // the library's own containment predicate must agree that strict-interior points of a cell are
+    // inside that cell only (it decides which cell a lookup returns)
+    let cells_a5: Vec<(u64, a5::core::utils::A5Cell)> = geoms.iter().filter_map(|g| subj::deserialize(g.id).ok().map(|c| (g.id, c))).collect();
     for g in &geoms {
         for q in geo::cell_interior_points(&g.poly, &[0.5, 0.9]) {
             if let Ok(w) = subj::inverse(q, g.face) {
                 let s = strict_in(w);
+                if s.len() == 1 && s[0] == g.id {
+                    let (lo, la) = rg::vec_to_ll(w);
+                    // re-classify what is actually passed in
+                    if strict_in(rg::ll_to_vec(lo, la)) != s {
+                        continue;
+                    }
+                    for (id, c) in &cells_a5 {
+                        let inside = subj::guard(|| a5::core::cell::a5cell_contains_point(c, a5::coordinate_systems::LonLat::new(lo, la))).map(|d| d > 0.0);
+                        match inside {
+                            Ok(b) if b == (*id == g.id) => {}
+                            Ok(b) => {
+                                out.push(viol(
+                                    "C03/predicate-overlap",
+                                    format!("a point strictly inside {} only is reported {} {} by the library's containment predicate (resolution {})", subj::hex(g.id), if b { "inside" } else { "outside" }, subj::hex(*id), r),
+                                    json!({"kind": "fine", "lon": lon, "lat": lat, "res": r}),
+                                ));
+                                return (geoms.len() as u64, out);
+                            }
+                            Err(_) => {}
+                        }
+                    }
+                }
                 if s.contains(&g.id) && s.len() > 1 {
                     out.push(viol("C03/overlap", format!("an interior point of {} is strictly inside {} cells of resolution {}", subj::hex(g.id), s.len(), r), json!({"kind": "cell_pair", "a": subj::hex(g.id), "b": subj::hex(*s.iter().find(|&&x| x != g.id).unwrap())})));
                     break;
